@@ -381,14 +381,15 @@ func c10BuildShim(repo, verif, work string) (*c10Shim, error) {
 // ---- records -----------------------------------------------------------------------------------------------
 
 type c10Record struct {
-	T    string `json:"t"`
-	NS   uint64 `json:"ns"`
-	ID   int    `json:"id"`
-	Kind string `json:"kind"`
-	Case string `json:"case"`
-	Tr   string `json:"tr"`
-	Raw  string `json:"raw"`
-	Chan string `json:"chan"`
+	T     string `json:"t"`
+	NS    uint64 `json:"ns"`
+	ID    int    `json:"id"`
+	Kind  string `json:"kind"`
+	State string `json:"state"`
+	Case  string `json:"case"`
+	Tr    string `json:"tr"`
+	Raw   string `json:"raw"`
+	Chan  string `json:"chan"`
 
 	Phantom *string `json:"phantom"`
 	Client  *string `json:"client"`
@@ -415,6 +416,14 @@ type c10Record struct {
 	Active uint64 `json:"active"`
 }
 
+// label names the message for signatures: new | update | dup-unused | dup-used | clear | shutdown-clear | stray
+func (r *c10Record) label() string {
+	if r.Kind == "dup" {
+		return "dup-" + r.State
+	}
+	return r.Kind
+}
+
 func (r *c10Record) witness(reply map[string]string) map[string]interface{} {
 	str := func(p *string) interface{} {
 		if p == nil {
@@ -424,11 +433,11 @@ func (r *c10Record) witness(reply map[string]string) map[string]interface{} {
 	}
 	num := func(p interface{}) interface{} { return p }
 	w := map[string]interface{}{
-		"state": r.Kind, "case": r.Case, "channel": r.Chan, "published_bytes_hex": r.Raw,
+		"state": r.label(), "case": r.Case, "channel": r.Chan, "published_bytes_hex": r.Raw,
 		"decoded_message": map[string]interface{}{"phantom_ip": str(r.Phantom), "client_ip": str(r.Client), "timeout_ns": num(r.Timeout),
 			"operation": num(r.Op), "dst_port": num(r.DPort), "src_port": num(r.SPort), "proto": num(r.Proto)},
 	}
-	if r.Kind != "clear" && r.EPhantom != "" {
+	if r.EPhantom != "" {
 		w["registration"] = map[string]interface{}{"phantom": c10IPText(r.EPhantom), "registrant": c10IPText(r.EClient), "dst_port": r.EPort,
 			"reg.PhantomProto": r.RegProto, "transport": r.Tr, "station_lifetime_ns": r.ELife}
 	}
@@ -493,7 +502,7 @@ func c10ShimLine(r *c10Record) string {
 	if r.Proto != nil {
 		f[8] = strconv.Itoa(int(*r.Proto))
 	}
-	if (r.Kind == "new" || r.Kind == "update") && r.EPhantom != "" {
+	if (r.Kind == "new" || r.Kind == "update" || r.Kind == "dup") && r.EPhantom != "" {
 		if r.EClient != "" {
 			f[9] = r.EClient
 		}
@@ -613,6 +622,10 @@ func c10Post(rc *RunCtx) {
 		rc.addCount("judged_"+r.Kind, 1)
 		switch r.T {
 		case "X":
+			if r.Kind == "shutdown-clear" {
+				viol("clear:not-published-after-shutdown", "after the station's shutdown sequence (cancel, wg.Wait, Cleanup) no Clear reached the detector channel: the detector keeps every session", r, nil)
+				continue
+			}
 			viol("missing-announcement:"+r.Kind, "nothing was published on the detector channel for this "+map[string]string{"new": "admitted registration", "update": "activated registration", "clear": "shutdown"}[r.Kind], r, nil)
 			continue
 		case "U":
@@ -631,23 +644,23 @@ func c10Post(rc *RunCtx) {
 		}
 		classes := fmt.Sprintf("phantom=%s,registrant=%s", r.PClass, r.CClass)
 		switch r.Kind {
-		case "clear":
+		case "clear", "shutdown-clear":
 			lb, _ := strconv.Atoi(rep["len_before"])
 			la, _ := strconv.Atoi(rep["len_after"])
 			if lb == 0 {
-				rc.addCount("clear_on_empty_map_undecidable", 1)
+				rc.addCount(r.Kind+"_on_empty_map_undecidable", 1)
 				continue
 			}
-			distinct["clear/non-empty-map"] = true
-			rc.addCount("clear_on_nonempty_map", 1)
+			distinct[r.Kind+"/non-empty-map"] = true
+			rc.addCount(strings.ReplaceAll(r.Kind, "-", "_")+"_on_nonempty_map", 1)
 			if la != 0 {
 				why := "op=" + rep["op"]
 				if rep["parse"] != "ok" {
 					why = "rejected-" + rep["parse"]
 				}
-				viol("clear:not-acted-on:"+why, fmt.Sprintf("after the station's Clear the detector still holds %d of %d sessions (%s)", la, lb, why), r, rep)
-			} else if nsamples["clear"] < 1 {
-				nsamples["clear"]++
+				viol(r.Kind+":not-acted-on:"+why, fmt.Sprintf("after the station's Clear the detector still holds %d of %d sessions (%s)", la, lb, why), r, rep)
+			} else if nsamples[r.Kind] < 1 {
+				nsamples[r.Kind]++
 				rc.Samples = append(rc.Samples, map[string]interface{}{"monitor": "detector-shim", "case": r.witness(rep)})
 			}
 			continue
@@ -659,11 +672,13 @@ func c10Post(rc *RunCtx) {
 			continue
 		}
 
-		// ---- New / Update for an admitted registration
-		distinct[strings.Join([]string{r.Kind, r.Tr, r.PClass, r.CClass, r.PoClass, c10OvShape(r.OvClass)}, "/")] = true
+		// ---- New / Update / re-announcement for an admitted registration, judged against the tracked registration
+		// in its state at that moment
+		kind := r.label()
+		distinct[strings.Join([]string{kind, r.Tr, r.PClass, r.CClass, r.PoClass, c10OvShape(r.OvClass)}, "/")] = true
 		bad := false
 		if rep["parse"] != "ok" {
-			viol("reject:"+rep["parse"]+":"+c10Culprit(rep["parse"], r), fmt.Sprintf("the detector's SessionResult::from rejects the %s announcement: %s", r.Kind, rep["parse"]), r, rep)
+			viol("reject:"+rep["parse"]+":"+c10Culprit(rep["parse"], r), fmt.Sprintf("the detector's SessionResult::from rejects the %s announcement: %s", kind, rep["parse"]), r, rep)
 			continue
 		}
 		ePh, okP := c10Addr(r.EPhantom)
@@ -675,17 +690,17 @@ func c10Post(rc *RunCtx) {
 			return
 		}
 		if !okP || gPh.Unmap() != ePh {
-			viol("mismatch:phantom:"+r.Kind, fmt.Sprintf("the detector understood phantom %s, the registration's is %s", gPh, c10IPText(r.EPhantom)), r, rep)
+			viol("mismatch:phantom:"+kind, fmt.Sprintf("the detector understood phantom %s, the registration's is %s", gPh, c10IPText(r.EPhantom)), r, rep)
 			bad = true
 		}
-		if r.CClass == "absent" || r.CClass == "zero16" {
+		if r.CClass == "absent" || r.CClass == "zero16" || r.EClient == strings.Repeat("00", 16) {
 			// there is no registrant address to carry; whatever client the detector accepted will do
 		} else if !okC || gCl.Unmap() != eCl {
-			viol("mismatch:client:"+r.Kind+":registrant="+r.CClass, fmt.Sprintf("the detector understood client %s, the registrant is %s", gCl, c10IPText(r.EClient)), r, rep)
+			viol("mismatch:client:"+kind+":registrant="+r.CClass, fmt.Sprintf("the detector understood client %s, the registrant is %s", gCl, c10IPText(r.EClient)), r, rep)
 			bad = true
 		}
 		if rep["sd_dport"] != strconv.Itoa(int(r.EPort)) {
-			viol("mismatch:port:"+r.Kind, fmt.Sprintf("the detector understood destination port %s, the registration's is %d", rep["sd_dport"], r.EPort), r, rep)
+			viol("mismatch:port:"+kind, fmt.Sprintf("the detector understood destination port %s, the registration's is %d", rep["sd_dport"], r.EPort), r, rep)
 			bad = true
 		}
 		if r.RegProto != r.TrProto {
@@ -697,7 +712,7 @@ func c10Post(rc *RunCtx) {
 			bad = true
 		}
 		if rep["sd_timeout"] != strconv.FormatUint(r.ELife, 10) {
-			viol("lifetime:"+r.Kind+":requested="+rep["sd_timeout"], fmt.Sprintf("the requested lifetime is %s ns, the station's own for this state is %d ns", rep["sd_timeout"], r.ELife), r, rep)
+			viol("lifetime:"+kind+":requested="+rep["sd_timeout"], fmt.Sprintf("the requested lifetime is %s ns, the station's own for this state is %d ns", rep["sd_timeout"], r.ELife), r, rep)
 			bad = true
 		}
 		if bad {
@@ -710,17 +725,17 @@ func c10Post(rc *RunCtx) {
 		}
 		if rep["tracked"] != "1" {
 			if rep["nchanged"] == "0" {
-				viol("ignored:op="+rep["op"]+":"+r.Kind, "the detector's handler left its session map untouched for this operation", r, rep)
+				viol("ignored:op="+rep["op"]+":"+kind, "the detector's handler left its session map untouched for this operation", r, rep)
 			} else {
-				viol("not-forwarded:"+r.Kind+":"+classes, "after the announcement the detector's is_tracked_session does not recognise the flow registrant -> phantom:port", r, rep)
+				viol("not-forwarded:"+kind+":"+classes, "after the announcement the detector's is_tracked_session does not recognise the flow registrant -> phantom:port", r, rep)
 			}
 			continue
 		}
 		rem, _ := strconv.ParseUint(rep["rem"], 10, 64)
 		if rem < r.ELife || rep["probe_before"] != "1" {
-			sig := "expires-early:" + r.Kind
+			sig := "expires-early:" + kind
 			if rep["nchanged"] == "0" {
-				sig = "ignored:op=" + rep["op"] + ":" + r.Kind // the handler left the map untouched; the flow is only known from an earlier message
+				sig = "ignored:op=" + rep["op"] + ":" + kind // the handler left the map untouched; the flow is only known from an earlier message
 			}
 			viol(sig, fmt.Sprintf("the detector's drop_stale_sessions removes the session after %d ns, the station accepts the registration for %d ns", rem, r.ELife), r, rep)
 			continue
@@ -731,7 +746,7 @@ func c10Post(rc *RunCtx) {
 			rc.addCount("detector_keeps_session_longer_than_requested", 1)
 		}
 		rc.addCount("accepted_and_matching", 1)
-		if k := r.Kind + "/" + r.Tr; nsamples[k] < 1 && len(rc.Samples) < 12 {
+		if k := kind + "/" + r.Tr; nsamples[k] < 1 && len(rc.Samples) < 12 {
 			nsamples[k]++
 			rc.Samples = append(rc.Samples, map[string]interface{}{"monitor": "detector-shim", "case": r.witness(rep)})
 		}
@@ -746,6 +761,9 @@ func c10Post(rc *RunCtx) {
 		ds = append(ds[:40], fmt.Sprintf("… %d more", len(ds)-40))
 	}
 	rc.Extra["classes_seen_sample"] = ds
+	if rc.Counts["shutdown_clear_on_nonempty_map"] == 0 && len(rc.Violations) == nviolBefore && len(rc.Incon) == 0 {
+		rc.Errors = append(rc.Errors, "C10: no Clear after the station's shutdown sequence met a non-empty session map; the lifecycle scenario was not observed")
+	}
 	if rc.Counts["clear_on_nonempty_map"] == 0 && len(rc.Violations) == nviolBefore {
 		rc.Errors = append(rc.Errors, "C10: no Clear met a non-empty session map; the shutdown half of the property was not observed")
 	}
